@@ -32,18 +32,18 @@ pub fn batches(prop: &str, tier: &str) -> Vec<Batch> {
             Batch { label: "server", engine: "lsp-sim", params: json!({"mode":"stats"}), runs: if q { 400 } else { 20_000 } },
         ],
         "C07" => vec![
-            Batch { label: "dict-sequential", engine: "lsp-sim", params: json!({"mode":"sequential","focus":"dict"}), runs: if q { 300 } else { 10_000 } },
-            Batch { label: "dict-concurrent", engine: "lsp-sim", params: json!({"mode":"dict"}), runs: if q { 600 } else { 20_000 } },
-            Batch { label: "crash-random", engine: "lsp-sim", params: json!({"mode":"crash"}), runs: if q { 400 } else { 30_000 } },
-            Batch { label: "disk-errors", engine: "lsp-sim", params: json!({"mode":"sequential","focus":"dict","disk_errors":true}), runs: if q { 300 } else { 15_000 } },
-            Batch { label: "js-import-words", engine: "api-sim", params: json!({"target":"wasm"}), runs: if q { 300 } else { 20_000 } },
-            Batch { label: "crash-enum-base", engine: "lsp-sim", params: json!({"mode":"sequential","focus":"dict","enumerate_crash_points":true}), runs: if q { 60 } else { 1_500 } },
+            Batch { label: "dict-sequential", engine: "lsp-sim", params: json!({"mode":"sequential","focus":"dict"}), runs: if q { 300 } else { 6_000 } },
+            Batch { label: "dict-concurrent", engine: "lsp-sim", params: json!({"mode":"dict"}), runs: if q { 600 } else { 12_000 } },
+            Batch { label: "crash-random", engine: "lsp-sim", params: json!({"mode":"crash"}), runs: if q { 400 } else { 18_000 } },
+            Batch { label: "disk-errors", engine: "lsp-sim", params: json!({"mode":"sequential","focus":"dict","disk_errors":true}), runs: if q { 300 } else { 9_000 } },
+            Batch { label: "js-import-words", engine: "api-sim", params: json!({"target":"wasm"}), runs: if q { 300 } else { 12_000 } },
+            Batch { label: "crash-enum-base", engine: "lsp-sim", params: json!({"mode":"sequential","focus":"dict","enumerate_crash_points":true}), runs: if q { 60 } else { 900 } },
         ],
         "C08" => vec![
             Batch { label: "position", engine: "lsp-sim", params: json!({"mode":"sequential","focus":"position"}), runs: if q { 300 } else { 20_000 } },
         ],
         "C05" => {
-            let mut v = vec![Batch { label: "history", engine: "cache-sim", params: json!({"mode":"history","universes":3}), runs: if q { 500 } else { 20_000 } }];
+            let mut v = vec![Batch { label: "history", engine: "cache-sim", params: json!({"mode":"history","universes":3}), runs: if q { 500 } else { 12_000 } }];
             if !q {
                 v.push(Batch { label: "eviction", engine: "cache-sim", params: json!({"mode":"eviction","clauses":10_500,"universes":0}), runs: 48 });
                 v.push(Batch { label: "eviction-words", engine: "cache-sim", params: json!({"mode":"eviction","clauses":10_500,"universes":0,"distinct_words":true}), runs: 16 });
@@ -54,9 +54,9 @@ pub fn batches(prop: &str, tier: &str) -> Vec<Batch> {
             v
         }
         "C14" => vec![
-            Batch { label: "core", engine: "api-sim", params: json!({"target":"core"}), runs: if q { 1_000 } else { 60_000 } },
-            Batch { label: "wasm", engine: "api-sim", params: json!({"target":"wasm"}), runs: if q { 700 } else { 40_000 } },
-            Batch { label: "server", engine: "lsp-sim", params: json!({"mode":"sequential","focus":"ignore"}), runs: if q { 400 } else { 15_000 } },
+            Batch { label: "core", engine: "api-sim", params: json!({"target":"core"}), runs: if q { 1_000 } else { 40_000 } },
+            Batch { label: "wasm", engine: "api-sim", params: json!({"target":"wasm"}), runs: if q { 700 } else { 25_000 } },
+            Batch { label: "server", engine: "lsp-sim", params: json!({"mode":"sequential","focus":"ignore"}), runs: if q { 400 } else { 10_000 } },
         ],
         "C16" => vec![
             Batch { label: "wasm", engine: "api-sim", params: json!({"target":"wasm"}), runs: if q { 1_200 } else { 60_000 } },
